@@ -357,14 +357,20 @@ func poolChurn(g int) {
 func controlRoundTrip(side ws.State, g, n int, chunks []int) ([]byte, error) {
 	masked := side.ServerSide()
 	ping := []byte(word(g, 58, n%125+1))
+	pong := []byte(word(g+3, 59, n%60+2))
 	frames := []ref.Frame{
 		{H: ref.Header{Op: ref.OpText, Masked: masked, Mask: [4]byte{1, byte(g), 3, 4}}, Payload: []byte("he")},
 		{H: ref.Header{Fin: true, Op: ref.OpPing, Masked: masked, Mask: [4]byte{9, 8, byte(g), 6}}, Payload: ping},
+		{H: ref.Header{Fin: true, Op: ref.OpPong, Masked: masked, Mask: [4]byte{7, 7, byte(g), 1}}, Payload: pong},
 		{H: ref.Header{Fin: true, Op: ref.OpCont, Masked: masked, Mask: [4]byte{5, 5, 5, byte(g)}}, Payload: []byte("llo")},
 	}
 	ms, err := wsutil.ReadMessage(tx.NewSrc(ref.EncodeAll(frames), chunks), side, nil)
-	if err != nil || len(ms) != 2 || ms[0].OpCode != ws.OpPing {
-		return nil, fmt.Errorf("harness: ReadMessage with an interleaved ping: %v (%d messages)", err, len(ms))
+	if err != nil || len(ms) != 3 || ms[0].OpCode != ws.OpPing || ms[1].OpCode != ws.OpPong {
+		return nil, fmt.Errorf("harness: ReadMessage with two interleaved control frames: %v (%d messages)", err, len(ms))
+	}
+	// the control messages returned by one call must not share memory: the first is still intact after the second was collected
+	if string(ms[0].Payload) != string(ping) || string(ms[1].Payload) != string(pong) {
+		return nil, fmt.Errorf("control messages returned by one ReadMessage call: %q / %q, the stream carried %q / %q", ms[0].Payload, ms[1].Payload, ping, pong)
 	}
 	if err := wsutil.HandleControlMessage(tx.NewRec(), side, ms[0]); err != nil {
 		return nil, fmt.Errorf("harness: HandleControlMessage(ping): %v", err)
@@ -451,6 +457,9 @@ func TestResultsSurvivePoolReuse(t *testing.T) {
 			var p []byte
 			p, err = readPayload(kind, side, 0, size, chunks)
 			live = func() string { return string(p) }
+		}
+		if err != nil && strings.HasPrefix(err.Error(), "control messages returned") {
+			t.Fatalf("%v (side %v)", err, side)
 		}
 		if err != nil {
 			t.Fatalf("step 1 (%s) failed: %v\nshape: %+v", kind, err, s)
@@ -548,6 +557,19 @@ func TestCallerBuffersUntouched(t *testing.T) {
 			orig = gen.Filled(n, rapid.Byte().Draw(t, "fill"))
 		}
 		p := append([]byte(nil), orig...)
+		if rapid.Bool().Draw(t, "poolClassCap") {
+			// a caller buffer whose capacity is exactly a pbytes size class: the library must never
+			// hand it to its pool, whatever role it writes in
+			c := 128
+			for c < n {
+				c *= 2
+			}
+			if c <= 65536 {
+				q := make([]byte, n, c)
+				copy(q, orig)
+				p = q
+			}
+		}
 		api := rapid.SampledFrom([]string{"WriteMessage", "WriteClientMessage", "WriteClientText", "WriteClientBinary", "WriteServerMessage",
 			"Writer.WriteThrough", "Writer.Write+scribble+Flush", "CipherWriter.Write", "MaskFrame", "MaskFrameWith", "UnmaskFrame"}).Draw(t, "api")
 		client := rapid.Bool().Draw(t, "client")
@@ -659,6 +681,11 @@ func TestCallerBuffersUntouched(t *testing.T) {
 		}
 		if got := wirePayload(); !bytes.Equal(got, orig) {
 			t.Fatalf("%s: destination payload %x… differs from the caller's bytes %x…", api, head(got), head(orig))
+		}
+		// the caller keeps using its buffer: later pool traffic of every size class must not touch it
+		poolChurn(caseNo)
+		if !bytes.Equal(p, orig) {
+			t.Fatalf("%s: the caller's slice (len %d cap %d) changed during later, unrelated client writes: the library kept or pooled it: %x… -> %x…", api, len(p), cap(p), head(orig), head(p))
 		}
 	})
 }
